@@ -285,7 +285,7 @@ impl Property for C14 {
     fn budget(&self, tier: Tier) -> Budget {
         match tier {
             Tier::Quick => Budget { release: 250_000, dbg: 250_000, workers: 8 },
-            Tier::Thorough => Budget { release: 12_000_000, dbg: 12_000_000, workers: 16 },
+            Tier::Thorough => Budget { release: 8_000_000, dbg: 8_000_000, workers: 16 },
         }
     }
     fn hang_is_violation(&self) -> bool {
